@@ -11,7 +11,9 @@ RULE = (
     "pairs_exh: every ordered pair (A, B) of subsets of three universes of m values ({0..m-1}, "
     "{2^32-m..2^32-1}, and one split between both ends), m=7 quick / m=10 thorough, each pair run through "
     "intersection, union and difference; many_exh: every k-tuple of subsets for the multi-way union "
-    "(k=3, m=4 and k=4, m=3 quick; k=3, m=5 and k=4, m=4 thorough); skew_exh: lopsided operands - a long array of 16..33 "
+    "(k=3, m=4 and k=4, m=3 quick; k=3, m=5 and k=4, m=4 thorough); blocks_exh: consecutive / evenly spaced runs of 15..1025 (thorough 4097) row ids - powers of two and one off - "
+    "against themselves, shifted copies, halves, every other element, block-boundary elements, in every memory layout, "
+    "and three-way lists of them; skew_exh: lopsided operands - a long array of 16..33 "
     "(thorough ..129) elements against every subset of 1..3 values taken from windows at both of its ends and its "
     "middle (members and non-members), in both operand orders and at both ends of the uint32 range, because "
     "size-dependent strategies (binary search / galloping) fail at the ends of the long operand; pairs_hyp / wrappers / many_hyp: Hypothesis "
@@ -73,6 +75,8 @@ def kernel_seeds(corpus):
 
 SUBS = [
     Sub("skew_exh", check_c08_enum, enumerate=K.enum_skewed, exhaustive=True, marker=True, weight=4,
+        shards={"quick": 8, "thorough": 16}),
+    Sub("blocks_exh", check_c08_enum, enumerate=K.enum_blocks, exhaustive=True, marker=True, weight=4,
         shards={"quick": 8, "thorough": 16}),
     Sub("pairs_exh", check_c08_enum, enumerate=enum_pairs, exhaustive=True, marker=True, weight=5),
     Sub("many_exh", check_c08_enum, enumerate=enum_many, exhaustive=True, marker=True, weight=3,
